@@ -408,7 +408,18 @@ def evaluate(case, louts, ctx):
                 elif a != b and not (a in (None, []) and b in (None, [])):
                     if not (isinstance(a, dict) and isinstance(b, dict)):
                         pass
-            mask_t, mask_0 = p_t.min_base_size_mask, p_0.min_base_size_mask
+            # legacy column-summary test: one tuple of column positions per displayed column; every pair's test depends on
+            # the two columns' bases and the table margin only, so the tuples renumber like the matrix ones
+            a = common.call_impl(lambda: p_t.summary_pairwise_indices)
+            b = common.call_impl(lambda: p_0.summary_pairwise_indices)
+            if isinstance(a, list) and isinstance(b, list) and len(b) == C_0 and len(a) == C_t and C_t > 0 and R_t > 0 \
+                    and all(isinstance(x, list) for x in a + b) and kinds[-2] not in ("mr", "arr"):
+                # (with array rows the columns base is a matrix and the legacy summary indexes ROWS: no column reading)
+                pos_t = {c0: j for j, c0 in enumerate(cmap)}
+                exp = [sorted(pos_t[c] for c in b[j0] if c in pos_t) for j0 in cmap]
+                sc.compare(findings, "spec", "slice.summary_pairwise_indices.renumbered", [sorted(x) for x in a], exp,
+                           "k=%d cols %r" % (k, co_t))
+                ctx.count("summary_pairwise_compared")
         if is_slice:
             for name in ("row_mask", "column_mask", "table_mask"):
                 a = common.call_impl(lambda: getattr(p_t.min_base_size_mask, name))
